@@ -35,6 +35,21 @@ def gen_inputs(ctx):
                 out.append(("Generate", inp, ("generate", net, acct in (0, 2 ** 31 - 1), max(0, en - st), st > en, "seed" in src)))
             out.append(("Wasabi", dict(src, net=net), ("wasabi", net)))
             out.append(("Bip85Data", dict(src, net=net), ("bip85data", net)))
+    # masters whose fingerprint has a leading zero nibble / byte (formatting corner of the Wasabi export)
+    from .. import refprims as R, refwallet as W
+    found = {"nibble": 0, "byte": 0}
+    k = 0
+    while (found["nibble"] < 3 or (not q and found["byte"] < 1)) and k < (600 if q else 6000):
+        seed = bytes([k & 255, k >> 8]) + bytes(14)
+        k += 1
+        rn = W.master(R.Table(), seed, "main")
+        fp = R.hash160(rn.K)[:4]
+        cls = "byte" if fp[0] == 0 else "nibble" if fp[0] < 16 else None
+        if cls and found[cls] < 3:
+            found[cls] += 1
+            for net in ("main", "test"):
+                out.append(("Wasabi", {"seed": B(seed), "mnemonic": T(""), "password": T(""), "net": net}, ("wasabi-fp-leading-zero", cls, net)))
+    ctx.notes["masters_with_leading_zero_fingerprint"] = found
     return out
 
 
